@@ -320,6 +320,7 @@ Inductive call_outcome (g : config) (s : sys) (c : client) (q : creq) (k : cont)
                  (Message.ASignature, ostr (q_sig q))] = Ok tt)
     (Hser : p_serial (proc_of g s c) <= Calls.max_serial)
     (Hhdr : header_ok q = true)
+    (Hfit : too_big (g_limit g) (g_fuel g) (call_msg q (p_serial (proc_of g s c)) body) = false)
     (Hnet : s_net s' = s_net s ++ [(Up c, mkW (call_msg q (p_serial (proc_of g s c)) body) None)])
     (Hpend : Calls.st_pending (s_calls s' c) =
              alist_set N.eqb (p_serial (proc_of g s c))
@@ -331,6 +332,7 @@ Inductive call_outcome (g : config) (s : sys) (c : client) (q : creq) (k : cont)
     (Hexp : q_expect q = false)
     (Hser : p_serial (proc_of g s c) <= Calls.max_serial)
     (Hhdr : header_ok q = true)
+    (Hfit : too_big (g_limit g) (g_fuel g) (call_msg q (p_serial (proc_of g s c)) body) = false)
     (Hvalid : Message.validate_args false 1
                 [(Message.APath, PStr (q_path q)); (Message.AInterface, ostr (q_iface q));
                  (Message.AMember, PStr (q_member q)); (Message.ADestination, ostr (q_dest q));
@@ -403,9 +405,12 @@ Proof.
   destruct (encode_body (g_fuel g) (q_sig q) (PTuple (q_args q)) (Some [])) as [body|e] eqn:EB.
   2:{ apply (FAIL _ (Calls.call_remote st Calls.CkInvalid (q_timeout q) (q_rs q)) n).
       - reflexivity. - reflexivity. - reflexivity. - lia. }
-  destruct (header_ok q) eqn:EH; cbn [negb].
+  destruct (header_ok q) eqn:EH; cbn [negb orb].
   2:{ apply (FAIL _ (Calls.call_remote (with_serial st (n + 1)) Calls.CkInvalid (q_timeout q) (q_rs q)) (n + 1)).
       - reflexivity. - reflexivity. - reflexivity. - lia. }
+  destruct (negb (Calls.max_serial <? n) && too_big (g_limit g) (g_fuel g) (call_msg q n body)) eqn:ET.
+  { apply (FAIL _ (Calls.call_remote (with_serial st (n + 1)) Calls.CkInvalid (q_timeout q) (q_rs q)) (n + 1)).
+    - reflexivity. - reflexivity. - reflexivity. - lia. }
   set (kind := if q_expect q then Calls.CkNormal else Calls.CkNoReply).
   set (st1 := Calls.call_remote st kind (q_timeout q) (q_rs q)).
   assert (K : Calls.st_next_id st1 = S id /\ Calls.st_next_serial st1 = n + 1 /\
@@ -425,6 +430,7 @@ Proof.
     - rewrite K3. destruct (q_expect q); reflexivity.
     - exact K1.
     - rewrite K2. lia. }
+  cbn [negb andb] in ET.
   apply N.ltb_ge in EM.
   destruct (q_expect q) eqn:EX.
   - (* sent, a reply is awaited *)
@@ -434,12 +440,13 @@ Proof.
       * cbn. rewrite upd_same. exact K1.
       * intros p0 Hp0. cbn. rewrite updn_other by exact Hp0. reflexivity.
       * unfold proc_of. cbn. rewrite updn_same. cbn. change (p_serial (s_procs s (g_proc g c))) with n. rewrite K2. lia.
-    + refine (CoSent g s c q k _ body _ _ _ _ _ _ _ _ _).
+    + refine (CoSent g s c q k _ body _ _ _ _ _ _ _ _ _ _).
       * exact EX.
       * exact EB.
       * exact EV.
       * exact EM.
       * exact EH.
+      * exact ET.
       * reflexivity.
       * cbn. rewrite upd_same. exact K3.
       * reflexivity.
@@ -453,10 +460,11 @@ Proof.
       * cbn. rewrite upd_same. exact K1.
       * intros p0 Hp0. cbn. rewrite updn_other by exact Hp0. reflexivity.
       * unfold proc_of. cbn. rewrite updn_same. cbn. change (p_serial (s_procs s (g_proc g c))) with n. rewrite K2. lia.
-    + refine (CoNoReply g s c q k _ body x' _ _ _ _ _ _ _ _).
+    + refine (CoNoReply g s c q k _ body x' _ _ _ _ _ _ _ _ _).
       * exact EX.
       * exact EM.
       * exact EH.
+      * exact ET.
       * exact EV.
       * reflexivity.
       * cbn. rewrite upd_same. exact K3.
@@ -2657,6 +2665,7 @@ Lemma conn_call_sent g s c q k body :
      (Message.ASignature, ostr (q_sig q))] = Ok tt ->
   encode_body (g_fuel g) (q_sig q) (PTuple (q_args q)) (Some []) = Ok body ->
   header_ok q = true -> q_expect q = true -> p_serial (proc_of g s c) <= Calls.max_serial ->
+  too_big (g_limit g) (g_fuel g) (call_msg q (p_serial (proc_of g s c)) body) = false ->
   let n := p_serial (proc_of g s c) in
   let id := Calls.st_next_id (s_calls s c) in
   let s' := conn_call g s c q k in
@@ -2666,9 +2675,9 @@ Lemma conn_call_sent g s c q k body :
   s_conts s' c = s_conts s c ++ [(id, k)] /\ s_done s' = s_done s /\
   s_invs s' = s_invs s /\ s_results s' = s_results s.
 Proof.
-  intros HV HB HH HE HS. cbn zeta. unfold conn_call. rewrite HV, HB, HH, HE. cbn [negb].
+  intros HV HB HH HE HS HF. cbn zeta. unfold conn_call. rewrite HV, HB, HH, HE, HF. cbn [negb].
   assert (EM : (Calls.max_serial <? p_serial (proc_of g s c)) = false) by (apply N.ltb_ge; exact HS).
-  rewrite EM.
+  rewrite EM. cbn [negb andb orb].
   destruct (call_remote_normal (with_serial (s_calls s c) (p_serial (proc_of g s c))) (q_timeout q) (q_rs q)) as (K1 & K2 & K3).
   cbn [Calls.st_next_serial with_serial] in K3. rewrite EM in K3.
   split; [reflexivity|]. split.
@@ -2747,6 +2756,9 @@ Theorem end_to_end :
   q_expect q = true -> q_dest q = Some d -> route B d = Some j ->
   q_sig q = Some (show_list ts_in) -> q_args q = args ->
   constructible q -> n <= Calls.max_serial ->
+  (* ... and is within DBusMessage._maxMsgLen *)
+  (forall body, encode_body (g_fuel g) (q_sig q) (PTuple (q_args q)) (Some []) = Ok body ->
+                too_big (g_limit g) (g_fuel g) (call_msg q n body) = false) ->
   passed ts_in args ws_in (g_fuel g) ->
   (* what the proxy declares is what the exporter exports *)
   DispatchSpec.distinct_interfaces (g_exports g j) -> DispatchSpec.builtin dc = false ->
@@ -2763,7 +2775,7 @@ Theorem end_to_end :
     mirrors ts_out (g_fuel g) l x.
 Proof.
   intros g h0 serial0 pre post i j pidx member args kw px q d ts_in ts_out ws_in o im m B s1 st n id dc
-         AH Ai Aj VB NT CR HE HD HR HS HA [CV CH] HN PA DI NB AD CA RS MO QU NS.
+         AH Ai Aj VB NT CR HE HD HR HS HA [CV CH] HN HF PA DI NB AD CA RS MO QU NS.
   (* the request and its reading *)
   destruct (codec_roundtrip (g_fuel g) ts_in (PTuple args) args ws_in (Some []) eq_refl PA) as (body & EB & DE).
   rewrite <- HS, <- HA in EB.
@@ -2795,7 +2807,7 @@ Proof.
   pose proof (loginv_run g h0 serial0 pre AH) as L1. fold s1 in L1.
   assert (STEP : step g s1 (ACall i pidx member args kw) = conn_call g s1 i q KUser).
   { cbn [step]. unfold proxy_call. rewrite NT, CR. reflexivity. }
-  destruct (conn_call_sent g s1 i q KUser body CV EB CH HE HN) as (S1 & S2 & S3 & S4 & S5 & S6).
+  destruct (conn_call_sent g s1 i q KUser body CV EB CH HE HN (HF body EB)) as (S1 & S2 & S3 & S4 & S5 & S6).
   fold n id in S1, S2, S3.
   set (s2 := conn_call g s1 i q KUser) in *.
   assert (I2 : Inv g B s2).
@@ -2935,7 +2947,7 @@ Definition x_cfg : config :=
   mkCfg 8 (fun c => N.to_nat c)
         (fun c => if c =? 2 then x_exports else [])
         (fun _ inv => Dispatch.OValue (match Dispatch.v_args inv with [x] => x | l => PTuple l end))
-        (fun _ => ([], [])).
+        (fun _ => ([], [])) Message.max_msg_len.
 
 Definition x_h0 : list BusRoute.event := OpsC11.setup 3 [].
 
@@ -2987,6 +2999,8 @@ Lemma example_hypotheses :
     = PcCall x_q /\
   route B (unique_name 2) = Some 2 /\
   constructible x_q /\ n <= Calls.max_serial /\
+  (forall body, encode_body (g_fuel x_cfg) (q_sig x_q) (PTuple (q_args x_q)) (Some []) = Ok body ->
+                too_big (g_limit x_cfg) (g_fuel x_cfg) (call_msg x_q n body) = false) /\
   passed [TInt32] [PInt 7] [WInt 7] (g_fuel x_cfg) /\
   DispatchSpec.distinct_interfaces (g_exports x_cfg 2) /\ DispatchSpec.builtin dc = false /\
   DispatchSpec.addressed (g_exports x_cfg 2) dc = DispatchSpec.TMethod [x_class] x_im x_m /\
@@ -3000,6 +3014,7 @@ Proof.
   split; [reflexivity|]. split; [reflexivity|]. split; [reflexivity|]. split; [vm_compute; reflexivity|].
   split; [vm_compute; reflexivity|]. split; [vm_compute; reflexivity|]. split; [split; vm_compute; reflexivity|].
   split; [vm_compute; discriminate|].
+  split. { intros body E. vm_compute in E. injection E as <-. vm_compute. reflexivity. }
   split. { constructor; cbn; repeat split; try reflexivity; try lia; vm_compute; reflexivity. }
   split. { intros p o H. destruct H as [H|[]]. injection H as <- <-. vm_compute. repeat constructor; intros []; discriminate. }
   split; [vm_compute; reflexivity|]. split; [vm_compute; reflexivity|]. split; [vm_compute; discriminate|].
